@@ -1,0 +1,17 @@
+// Copyright 2024 The Go Authors. All rights reserved.
+// Use of this source code is governed by a BSD-style
+// license that can be found in the LICENSE file.
+
+//go:build verif
+
+// Contracts (//@ lines) for package middleware; compiled only with -tags verif.
+
+package middleware
+
+// RequestSize: the wrapped handler always sees a body that is an
+// http.MaxBytesReader with limit n, whatever the request's framing or declared
+// length (C12: bodies over the size limit are refused when they are read).
+//@ contract RequestSize$1$1
+//@   requires r != nil && h != nil
+//@   at call ServeHTTP#1: assert arg1 == r && r.Body != nil && httplimit(r.Body) == n
+//@   modifies heap
